@@ -114,6 +114,45 @@ def run_model(lines, jobs=None, timeout=900):
     return out
 
 
+
+# --------------------------------------------------------------------------
+class Timeout(Exception):
+    """raised inside `with time_limit(s)` when the implementation under test does not return in time"""
+
+
+class time_limit:
+    """Wall-clock bound for one call into the implementation under test (main thread only):
+    a change that makes the code loop must become a reported failing input, not a hung check."""
+
+    def __init__(self, seconds):
+        self.seconds = seconds
+
+    def _fire(self, signum, frame):
+        raise Timeout('no result within %.1fs' % self.seconds)
+
+    def __enter__(self):
+        import signal
+        self._old = signal.signal(signal.SIGALRM, self._fire)
+        signal.setitimer(signal.ITIMER_REAL, self.seconds)
+        return self
+
+    def __exit__(self, *exc):
+        import signal
+        signal.setitimer(signal.ITIMER_REAL, 0)
+        signal.signal(signal.SIGALRM, self._old)
+        return False
+
+
+def take(gen, cap):
+    """list(gen) but give up (Timeout) after cap items: a generator that never ends must not eat the memory"""
+    out = []
+    for x in gen:
+        out.append(x)
+        if len(out) > cap:
+            raise Timeout('more than %d items' % cap)
+    return out
+
+
 # --------------------------------------------------------------------------
 class Result:
     def __init__(self):
